@@ -165,6 +165,10 @@ func (ex *explorer) check(t *sym.Term) (smt.Result, sym.Model) {
 	if r == smt.Sat {
 		m = ex.solver.Model(ex.inputTerms())
 	}
+	if ex.solver.Dead {
+		ex.unknowns++
+		panic(pathEnd{status: stSolverUnkown, detail: "solver stopped answering and was restarted: " + ex.solver.LastError})
+	}
 	ex.solver.Pop()
 	if r == smt.Unknown {
 		ex.unknowns++
@@ -483,7 +487,11 @@ func (ex *explorer) runOne(entry *ssa.Function, item workItem) (res PathResult) 
 			}
 		}
 		i.curFrame = nil
-		ex.finish(&res)
+		if ex.solver.Dead {
+			ex.solver.Restart()
+		} else {
+			ex.finish(&res)
+		}
 		ex.solver.EndRun()
 		i.rollback()
 		i.undoOn = false
